@@ -1086,6 +1086,10 @@ def discharge(F, A, s):
             return None
         if k == "Overflow:Add":
             a, b = A.sym(s.ops[0]), A.sym(s.ops[1])
+            for x, y, xo in ((a, b, s.ops[0]), (b, a, s.ops[1])):
+                if y[0] == "c" and 0 <= y[1] <= 4096 and closure_param_enumerate_index(F, A, xo):
+                    return ("enumerate-index", "the operand is the index an `enumerate()` adaptor hands to this closure (at most isize::MAX for an in-memory sequence, and below usize::MAX "
+                                               "for any iterator, or enumerate() itself would have overflowed): plus %d cannot overflow usize" % y[1])
             if all(bounded_by_allocation(v) or A.count_source(o) is not None for v, o in ((a, s.ops[0]), (b, s.ops[1]))):
                 return ("length-arith", "the sum of two collection lengths / element counts (each at most isize::MAX) cannot overflow usize")
             for x, y, xo in ((a, b, s.ops[0]), (b, a, s.ops[1])):
@@ -1221,6 +1225,56 @@ def bounded_by_allocation(x):
         return True
     if x[0] == "add" and x[2] <= 4096:
         return bounded_by_allocation(x[1])
+    return False
+
+
+_ENUM_CHAIN = re.compile(r"^(core::iter::adapters::(filter::Filter|rev::Rev|skip::Skip|take::Take|peekable::Peekable|inspect::Inspect|take_while::TakeWhile|"
+                         r"skip_while::SkipWhile|fuse::Fuse)<)*core::iter::adapters::enumerate::Enumerate<")
+_ITEM_CLOSURE_ADAPTORS = re.compile(r"Iterator::(map|filter|for_each|filter_map|any|all|find|find_map|position|flat_map|take_while|skip_while|inspect|map_while)$")
+
+
+def closure_param_enumerate_index(F, A, op):
+    """is the operand the first component of the item an iterator chain over `enumerate()` hands to this closure?  Decided from types and the creation site: the
+    analysed body is a closure, the operand is (a copy of) `.0` of its item parameter, and in the creating function the closure is an argument of an item-wise
+    adaptor (map / filter / for_each / any / ...) whose receiver has a type of the form [Filter|Rev|Skip|Take|...]*<Enumerate<..>> - adaptors that hand items on unchanged."""
+    if "{closure#" not in A.name or op[0] not in ("C", "M"):
+        return False
+    pl = op[1]
+    for _ in range(6):
+        if len(pl) != 1:
+            break
+        defs = A.B.defs.get(pl[0], [])
+        if len(defs) != 1 or defs[0][2] != "assign" or defs[0][3][2][0] != "Use" or defs[0][3][2][1][0] not in ("C", "M"):
+            return False
+        pl = defs[0][3][2][1][1]
+    # `_2.0` (item by value) or `(*_2).0` (item by reference)
+    if not (pl[0] == 2 and pl[-1] == [".", 0] and all(x == "*" for x in pl[1:-1])):
+        return False
+    parent = A.name.rsplit("::{closure#", 1)[0]
+    pb = F.bodies.get(parent)
+    if pb is None:
+        return False
+    PB = mirutil.Body(F, pb)
+    holders = set()
+    for bl in pb["blocks"]:
+        for st in bl["s"]:
+            if st[0] == "A" and st[2][0] == "Agg" and isinstance(st[2][1], list) and st[2][1][0] == "closure" and st[2][1][1] == A.name and len(st[1]) == 1:
+                holders.add(st[1][0])
+    if not holders:
+        return False
+    for bl in pb["blocks"]:
+        t = bl["t"]
+        if t[0] != "call":
+            continue
+        c = t[1]
+        p = c["f"].get("o") or c["f"].get("p") or ""
+        if not _ITEM_CLOSURE_ADAPTORS.search(p) or len(c.get("args", [])) < 2:
+            continue
+        if not any(a[0] in ("C", "M") and len(a[1]) == 1 and a[1][0] in holders for a in c["args"][1:]):
+            continue
+        r = c["args"][0]
+        if r[0] in ("C", "M") and len(r[1]) == 1 and _ENUM_CHAIN.match(PB.local_ty(r[1][0]).lstrip("&").replace("mut ", "")):
+            return True
     return False
 
 
